@@ -353,8 +353,15 @@ def _forms(repo, col):
                 if pred(n_):
                     return i_
         return None
-    i_len = stmt_index(lambda n_: isinstance(n_, ast.Assign) and unparse(n_.targets[0]) == "pathlengths")
-    i_zero = stmt_index(lambda n_: isinstance(n_, ast.Compare) and "pathlen == 0.0" in unparse(n_))
+    # located by what they do (no local name): the statement that sums what _compute_pathlengths returned, and the comparison
+    # of such a sum with zero; `seg` is the local that holds the per-branch segment lengths
+    seg = next((n_.targets[0].id for n_ in body if isinstance(n_, ast.Assign) and isinstance(n_.targets[0], ast.Name) and
+                isinstance(n_.value, ast.Call) and isinstance(n_.value.func, ast.Name) and n_.value.func.id == "_compute_pathlengths"), None)
+    i_len = stmt_index(lambda n_: isinstance(n_, ast.Assign) and n_.value is not None and
+                       any(isinstance(y, ast.Call) and unparse(y.func).split(".")[-1] == "sum" for y in ast.walk(n_.value)) and
+                       any(isinstance(y, ast.Name) and y.id == seg for y in ast.walk(n_.value)))
+    i_zero = stmt_index(lambda n_: isinstance(n_, ast.Compare) and len(n_.ops) == 1 and isinstance(n_.ops[0], ast.Eq) and
+                        isinstance(n_.comparators[0], ast.Constant) and n_.comparators[0].value in (0, 0.0))
     mutators = []
     for c in exs.calls:
         if isinstance(c.func, ast.Name):
@@ -365,7 +372,7 @@ def _forms(repo, col):
             for e_ in E.summary(cf):
                 if e_.root.startswith("param:") and e_.root[6:] in params:
                     k = params.index(e_.root[6:])
-                    if k < len(c.args) and unparse(c.args[k]) == "each_length":
+                    if k < len(c.args) and unparse(c.args[k]) == seg:
                         mutators.append((c, e_))
     if i_len is None or i_zero is None:
         raise AnalysisError("swc_to_jaxley: path-length computation / zero-length guard not found")
@@ -374,7 +381,7 @@ def _forms(repo, col):
         col.check(i_c is not None and i_c > max(i_len, i_zero), R, fi,
                   f"`{unparse(c.func)}` (clamps the traced segment lengths in place) runs after the path lengths are taken",
                   "path lengths and the zero-length convention see the traced values",
-                  f"`{unparse(c.func)}(...)` mutates `each_length` in place ({e_.describe()[:80]}) and now runs before the path "
+                  f"`{unparse(c.func)}(...)` mutates the traced segment lengths in place ({e_.describe()[:80]}) and now runs before the path "
                   f"lengths are summed: a zero-length section sums to 1e-8 instead of triggering the 1.0 um convention", node=c)
     if not mutators:
         col.ok(R, fi, "no callee mutates the traced segment lengths before they are summed", "", node=fi.node)
@@ -386,7 +393,18 @@ def _forms(repo, col):
     else:
         cmps = [x for x in ast.walk(g.test) if isinstance(x, ast.Compare) and "types[" in unparse(x)]
         t = unparse(cmps[0]).replace(" ", "") if cmps else ""
-        ok = t in ("types[i]!=types[parents[i]]", "types[parents[i]]!=types[i]")
+        # types[k] != types[parents[k]] for the SAME loop index k, whatever it is called
+        ok = False
+        if cmps and isinstance(cmps[0].ops[0], ast.NotEq):
+            sides = [cmps[0].left, cmps[0].comparators[0]]
+            def own(x):   # types[k] -> k
+                return unparse(x.slice) if (isinstance(x, ast.Subscript) and unparse(x.value) == "types" and isinstance(x.slice, ast.Name)) else None
+            def par(x):   # types[parents[k]] -> k
+                return unparse(x.slice.slice) if (isinstance(x, ast.Subscript) and unparse(x.value) == "types" and isinstance(x.slice, ast.Subscript)
+                                                  and unparse(x.slice.value) == "parents" and isinstance(x.slice.slice, ast.Name)) else None
+            for a_, b_ in (sides, sides[::-1]):
+                if own(a_) is not None and own(a_) == par(b_):
+                    ok = True
         wrong = bool(cmps) and not ok and "parents" not in t
         col.add(R, rg, "first radius of a branch is replaced iff its type differs from its PARENT's type",
                 "DISCHARGED" if ok else ("VIOLATED" if wrong else "UNDECIDED"),
